@@ -61,26 +61,48 @@ def form_app(buf, max_body=None):
     return app
 
 
-def post(buf, body, ctype, what='forms+files', chunked=False, rng=None, max_body=None, time_limit=10.0):
+def post(buf, body, ctype, what='forms+files', chunked=False, rng=None, max_body=None, time_limit=10.0, cut_wire=None, in_thread=False):
     app = form_app(buf, max_body)
     env = base_environ(REQUEST_METHOD='POST', PATH_INFO='/f/' + what, CONTENT_TYPE=ctype)
     wire = body
     if chunked:
         wire, _ = encode_chunked(rng, body, buf)      # size lines must fit the read buffer (bounded scan by design)
         env['HTTP_TRANSFER_ENCODING'] = 'chunked'
+        if cut_wire is not None:        # the chunked framing itself is cut short
+            wire = wire[:int(len(wire) * cut_wire)]
     else:
         env['CONTENT_LENGTH'] = str(len(body))
     stream = env['wsgi.input'] = Stream(wire, rng=rng if (rng is not None and rng.random() < 0.5) else None)
     t0 = time.time()
     escaped = False
     hung = False
-    try:
-        with core.time_limit(time_limit):
-            status, line, headers, out, n = call_app(app, env)
-    except core.Hang:
-        hung, status, out = True, 0, b''
-    except Exception as e:   # noqa
-        escaped, status, out = True, 0, repr(e).encode()
+    if in_thread:
+        # servers call the application from worker threads, not from the thread that imported the framework
+        import threading
+        box = {}
+
+        def work():
+            try:
+                box['r'] = call_app(app, env)
+            except Exception as e:   # noqa
+                box['e'] = e
+        th = threading.Thread(target=work, daemon=True)
+        th.start()
+        th.join(time_limit)
+        if th.is_alive():
+            hung, status, out = True, 0, b''
+        elif 'e' in box:
+            escaped, status, out = True, 0, repr(box['e']).encode()
+        else:
+            status, line, headers, out, n = box['r']
+    else:
+        try:
+            with core.time_limit(time_limit):
+                status, line, headers, out, n = call_app(app, env)
+        except core.Hang:
+            hung, status, out = True, 0, b''
+        except Exception as e:   # noqa
+            escaped, status, out = True, 0, repr(e).encode()
     dt = time.time() - t0
     res = {'status': status, 'escaped': escaped, 'hang': hung or dt > time_limit, 'errors': env['wsgi.errors'].getvalue()[-300:],
            'one_piece': (not chunked) and sum(1 for a, g in stream.ev if g) <= 1}
@@ -90,6 +112,55 @@ def post(buf, body, ctype, what='forms+files', chunked=False, rng=None, max_body
         except ValueError:
             res['status'] = -1
     return res
+
+
+def post_batch(specs, time_limit=5.0):
+    """Serve many requests in a child process; a request that does not finish within `time_limit` (plus start-up allowance)
+    is recorded as a hang, the child is killed and a new one continues with the next request.
+    spec: dict(buf, body (bytes), ctype, what, chunked, seed, max_body, cut_wire, in_thread)."""
+    import select
+    import subprocess
+    import sys
+    import tempfile
+    n = len(specs)
+    if not n:
+        return []
+    tmp = tempfile.NamedTemporaryFile('w', suffix='.json', prefix='ombverif-specs-', delete=False)
+    json.dump([dict(sp, body=sp['body'].hex(), time_limit=time_limit) for sp in specs], tmp)
+    tmp.close()
+    results = [None] * n
+    hang = {'status': 0, 'escaped': False, 'hang': True, 'errors': '', 'one_piece': False}
+    i = 0
+    hangs = 0
+    try:
+        while i < n:
+            proc = subprocess.Popen([sys.executable, '-m', 'harness.checks.formworker', tmp.name, str(i)], cwd=core.VERIF,
+                                    stdout=subprocess.PIPE, stderr=subprocess.DEVNULL, env=dict(os.environ, PYTHONPATH=core.VERIF))
+            first = True
+            try:
+                while i < n:
+                    limit = (time_limit if hangs < 3 else min(time_limit, 1.5)) + (20.0 if first else 2.0)
+                    ready, _, _ = select.select([proc.stdout], [], [], limit)
+                    if not ready:
+                        results[i] = dict(hang)
+                        hangs += 1
+                        i += 1
+                        break
+                    line = proc.stdout.readline()
+                    if not line:
+                        results[i] = dict(hang, hang=False, escaped=True, errors='worker process died')
+                        i += 1
+                        break
+                    d = json.loads(line)
+                    results[d['i']] = d['res']
+                    i = d['i'] + 1
+                    first = False
+            finally:
+                proc.kill()
+                proc.wait()
+    finally:
+        os.unlink(tmp.name)
+    return results
 
 
 def to_trace(body, buf, kind, fields, res, full=True):
